@@ -408,7 +408,8 @@ PROBE_SITES.update({
     "listAssign": ("site:assign", "void probe(PT& p) { p = {C19_ARG}; }"),
     "aggregate": ("site:copyInit", "struct S { PT p; }; void probe() { S s{C19_ARG}; (void)s; }"),
     "arrayInit": ("site:copyInit", "void probe() { PT a[1] = {C19_ARG}; (void)a; }"),
-    "conditional": ("site:copyInit", "PT probe(PT p, bool c) { return c ? p : C19_ARG; }"),
+    # clang words this one "incompatible operand types" (the deleted conversion is no conversion): compiler verdict only
+    "conditional": ("oracle:cond", "PT probe(PT p, bool c) { return c ? p : C19_ARG; }"),
     "pushBack": ("site:argument", "#include <vector>\nvoid probe(std::vector<PT>& v) { v.push_back(C19_ARG); }"),
     "defaultArg": ("site:copyInit", "void sink(PT p = C19_ARG); void probe() { sink(); }"),
     # makers: QuantityPointMaker::operator()(T) builds QuantityPoint<U, Zero>; rejected by IsValidRep (rep.hh), which the
@@ -427,7 +428,8 @@ ALLOW = {
     "ambiguous": [r"ambiguous overload for .operator-.", r"use of overloaded operator '-' is ambiguous"],
 }
 DELETED_DECL = ["QuantityPoint(au::Zero)", "QuantityPoint(Zero) = delete"]
-ORACLE_ONLY = {"rep": r"Rep must meet our requirements for a rep"}
+ORACLE_ONLY = {"rep": r"Rep must meet our requirements for a rep",
+               "cond": r"deleted (function|constructor)|incompatible operand types"}
 
 
 def probe_src(unit, rep, site, control):
@@ -496,11 +498,12 @@ def choose_units(rng, tier):
     return units
 
 
-LIGHT_LIBRARY = ("Unos", "Percent", "Seconds", "Celsius", "Meters", "Hertz")
+LIGHT_UNITS = ("au::UnitProductT<>", "decltype(au::Inches{} * au::mag<12>())", "au::Milli<au::Seconds>", "au::Celsius")
 
 
 def is_directed(u):
-    return u.get("directed") or u.get("name") in LIGHT_LIBRARY
+    """the units every configuration (all six compiler x standard pairs + the exact-count build) sees in every run"""
+    return u["expr"] in LIGHT_UNITS
 
 
 def explore(tier, seed, rng, wd):
@@ -525,7 +528,7 @@ def explore(tier, seed, rng, wd):
     # stride 0 = "light": the directed units only, directed values only, no sanitizer — every other compiler x standard
     # in every quick run (C++20 reversed candidates, g++ vs clang)
     if tier == "quick":
-        configs = [("g++", "c++14", 1, "-O0"), ("exact", std2, 6, "-O0")] + [c + (0, "-O0") for c in others]
+        configs = [("g++", "c++14", 1, "-O0"), ("exact", std2, 8, "-O0")] + [c + (0, "-O0") for c in others]
     else:
         configs = [("g++", "c++14", 1, "-O1"), ("exact", std2, 3, "-O1")] + \
                   [c + (1 if c[0].startswith("clang") and c[1] == "c++17" else 3, "-O1") for c in others]
